@@ -110,7 +110,8 @@ def parse_config_file(path: str, kwargs: dict):
     kwargs : dict
         options from command line arguments
     """
-    config = configparser.ConfigParser()
+    # values are taken literally: urls and comments may contain "%"
+    config = configparser.ConfigParser(interpolation=None)
     config.read(path)
 
     for key, val in config["config"].items():
